@@ -1151,3 +1151,22 @@ def run_bc_helper(st):
     except Exception as e:
         t["out"] = outcome_of_exception(e)
     return t
+
+
+def replay_cg_trail(rec):
+    """rec: emitted by CompleteGreedy.tla: the value of the incumbent after EVERY loop iteration (trail).  The real code is cut at every clock reading and
+    the value of what it returns is compared with the model's trail, entry by entry (the cut at reading c returns the incumbent after c-1 iterations)."""
+    vals, k, sw = rec["vals"], rec["k"], rec["sw"]
+    st = {"alg": "cg", "vals": vals, "k": k, "o": rec["o"], "sw": {"lb": bool(sw[0]), "flb": bool(sw[1]), "h3": bool(sw[2]), "seen": bool(sw[3])}, "swc": "".join(map(str, sw))}
+    t = run_anytime(st)
+    code = []
+    for c in t["cuts"]:
+        if c["out"] == "none":
+            code.append(-1)
+        elif c["out"] == "ret":
+            sums = [sum(vals[i - 1] for i in b) for b in c["lists"]]
+            code.append(max(sums) - min(sums) if rec["o"] == "diff" else (max(sums) if rec["o"] == "maxsum" else -min(sums)))
+        else:
+            code.append(c["out"])
+    model = [-1] + list(rec["trail"])
+    return [{"label": "cg.incumbent_value_after_each_iteration_differs_from_model", "m": model, "c": code, "key": {"vals": vals, "k": k, "o": rec["o"], "sw": sw}}]
